@@ -1263,6 +1263,8 @@ PANIC_SITES = [
     lambda c: ("raw", "var pm map[int]int\npm[1] = a"),
     lambda c: ("raw", "var pp *int\nrt.Emit(43, *pp)"),
     lambda c: ("raw", "panic(\"boom\")"),
+    lambda c: ("raw", "switch []int{1, 2}[a&3] {\ndefault:\n\tYield(b + 983)\n}"),
+    lambda c: ("raw", "var pq *int\nswitch *pq + a {\ndefault:\n\tYield(b + 984)\n\trt.Emit(rt.EFF, 987)\n}"),
     lambda c: ("raw", "panic(nil)"),
     lambda c: ("raw", "var pe error\npanic(pe)"),
     lambda c: ("yieldfrom", "PN(a)"),
@@ -1619,6 +1621,11 @@ class ScopeSampler:
                 n = rng.choice(cand)
                 e = self.expr(scopes)
                 top["vars"].append(n)
+                form = rng.random()
+                if form < 0.25:
+                    return [("raw", "var %s = %s" % (n, e))]
+                if form < 0.4:
+                    return [("raw", "var %s int\n%s = %s" % (n, n, e))]
                 return [("decl", n, e)]
         if k == "MDEF":
             # multi-value ':=' that re-assigns a variable of this very block and declares a new one
@@ -1834,6 +1841,9 @@ def c04_programs(strlens=(0, 1, 2, 3), only_int=False):
             shapes.append(("noy_sw_cont", [("switch", None, "(%s)&1" % val(), [("0", [("continue",)])], None), ("assign", "t", "t + " + val())]))
             shapes.append(("noy_sw_brk", [("switch", None, "(%s)&1" % val(), [("0", [("break",)])], [("assign", "t", "t + 1")]), ("assign", "t", "t + " + val())]))
             shapes.append(("closure_capture", [("raw", "get := func() int { return %s }" % val()), ("yield", "get()")]))
+            if tok == "=":
+                # nothing in the body: the iteration variables are still assigned on every iteration
+                shapes.append(("empty", []))
             if (K and K != "_") or V:
                 # closures created in one iteration and called after the loop: which variable they
                 # captured (per loop before go 1.22, per iteration from go 1.22 on) is observable
@@ -2241,6 +2251,8 @@ def c12_injections():
     I.append(("yield_in_case_expr_call", [("raw", "switch {\ncase func() bool { rt.Emit(rt.EFF, 926); return g3 }():\n\tYield(a + 927)\n}")]))
     I.append(("ctl_closure_with_defer_in_native_loop_then_break", [("raw", "lt := 0\nfor li := 0; li < 4; li++ {\n\tcf := func() int {\n\t\tdefer func() {}()\n\t\treturn li\n\t}\n\tif cf() > 1 && g3 {\n\t\tbreak\n\t}\n\tif li == 0 {\n\t\tcontinue\n\t}\n\tlt += cf()\n}"), Y("lt + 1005")]))
     I.append(("ctl_closure_with_labelled_loop_in_native_switch_then_break", [("raw", "lw := 0\nswitch a & 1 {\ncase 0:\n\tcw := func() int {\n\t\tt := 0\n\tLq:\n\t\tfor x := 0; x < 3; x++ {\n\t\t\tfor y := 0; y < 3; y++ {\n\t\t\t\tif y > x {\n\t\t\t\t\tcontinue Lq\n\t\t\t\t}\n\t\t\t\tt++\n\t\t\t}\n\t\t}\n\t\treturn t\n\t}\n\tif g3 {\n\t\tbreak\n\t}\n\tlw = cw()\n}"), Y("lw + 1006")]))
+    I.append(("labelled_cond_loop_break_in_switch", [("raw", "lq := 0\nLs:\n\tfor lq < 6 {\n\t\tlq++\n\t\tswitch {\n\t\tcase lq == 3 && g3:\n\t\t\tbreak Ls\n\t\tcase lq == 5:\n\t\t\tcontinue Ls\n\t\t}\n\t\tYield(lq + 1020)\n\t}"), Y("lq + 1021")]))
+    I.append(("labelled_native_loop_break_in_switch", [("raw", "lr, lt := 0, 0\nLn:\n\tfor lr < 6 {\n\t\tlr++\n\t\tswitch lr {\n\t\tcase 4:\n\t\t\tbreak Ln\n\t\t}\n\t\tlt += lr\n\t}"), Y("lt + 1022")]))
     I.append(("fallthrough_into_middle_default", [("raw", "switch a & 3 {\ncase 0:\n\trt.Emit(rt.EFF, 1010)\n\tfallthrough\ndefault:\n\tYield(a + 1011)\ncase 1:\n\tYield(b + 1012)\n}")]))
     I.append(("fallthrough_chain_middle_default", [("raw", "switch a & 3 {\ncase 0:\n\trt.Emit(rt.EFF, 1013)\n\tfallthrough\ndefault:\n\trt.Emit(rt.EFF, 1014)\n\tfallthrough\ncase 1:\n\tYield(b + 1015)\ncase 2:\n\tYield(a + 1016)\n}")]))
     I.append(("fallthrough_after_yielding_if", [("raw", "switch a & 1 {\ncase 1:\n\tif g3 {\n\t\tYield(a + 996)\n\t}\n\tfallthrough\ncase 0:\n\tYield(b + 997)\n}")]))
@@ -2653,6 +2665,11 @@ C17_PROGRAMS = [
     ("nested_grep", "func G@(mask, n int) (_ Iter[int]) {\n\tfor r := 0; rt.Probe(r < n); r++ {\n\t\tfor c := 0; c < 2; c++ {\n\t\t\tif (mask>>uint(r))&1 == 0 && c == 1 {\n\t\t\t\tYield(r*2 + c)\n\t\t\t}\n\t\t}\n\t}\n\treturn\n}\n"),
     ("nested_grep_first", "func G@(mask, n int) (_ Iter[int]) {\n\tfor r := 0; rt.Probe(r < n); r++ {\n\t\tfor c := 0; ; c++ {\n\t\t\tif c == 2 || (mask>>uint(r))&1 == 1 {\n\t\t\t\tbreak\n\t\t\t}\n\t\t\tYield(r*2 + c)\n\t\t}\n\t}\n\treturn\n}\n"),
     ("nested_range_in_loop", "func G@(mask, n int) (_ Iter[int]) {\n\tfor r := 0; rt.Probe(r < n); r++ {\n\t\tfor _, x := range []int{1, 2} {\n\t\t\tif (mask>>uint(r))&1 == 1 {\n\t\t\t\tcontinue\n\t\t\t}\n\t\t\tYield(r + x)\n\t\t}\n\t}\n\treturn\n}\n"),
+    ("nested_initless_inner", "func G@(mask, n int) (_ Iter[int]) {\n\tfor r := 0; rt.Probe(r < n); r++ {\n\t\tc := 0\n\t\tfor c < 2 {\n\t\t\tc++\n\t\t\tif (mask>>uint(r))&1 == 0 && c == 2 {\n\t\t\t\tYield(r*2 + c)\n\t\t\t}\n\t\t}\n\t}\n\treturn\n}\n"),
+    ("nested_initless_inner_first", "func G@(mask, n int) (_ Iter[int]) {\n\tr, c := 0, 0\n\tfor rt.Probe(r < n) {\n\t\tfor c < 2 {\n\t\t\tc++\n\t\t\tif (mask>>uint(r))&1 == 0 && c == 1 {\n\t\t\t\tYield(r*2 + c)\n\t\t\t}\n\t\t}\n\t\tc = 0\n\t\tr++\n\t}\n\treturn\n}\n"),
+    ("nested_loop_forever_inner", "func G@(mask, n int) (_ Iter[int]) {\n\tfor r := 0; rt.Probe(r < n); r++ {\n\t\tc := 0\n\t\tfor {\n\t\t\tc++\n\t\t\tif c > 2 {\n\t\t\t\tbreak\n\t\t\t}\n\t\t\tif (mask>>uint(r))&1 == 1 {\n\t\t\t\tcontinue\n\t\t\t}\n\t\t\tYield(r*2 + c)\n\t\t}\n\t}\n\treturn\n}\n"),
+    ("nested_inner_probe", "func G@(mask, n int) (_ Iter[int]) {\n\tr, c := 0, 0\n\tfor r < n {\n\t\tfor c < 2 {\n\t\t\trt.Probe(true)\n\t\t\tc++\n\t\t\tif (mask>>uint(r))&1 == 0 && c == 1 {\n\t\t\t\tYield(r*2 + c)\n\t\t\t}\n\t\t}\n\t\tc = 0\n\t\tr++\n\t}\n\treturn\n}\n"),
+    ("nested_inner_probe_post", "func G@(mask, n int) (_ Iter[int]) {\n\tc := 0\n\tfor r := 0; r < n; r++ {\n\t\tfor ; c < 2; c++ {\n\t\t\trt.Probe(true)\n\t\t\tif (mask>>uint(r))&1 == 0 && c == 0 {\n\t\t\t\tYield(r*2 + c)\n\t\t\t}\n\t\t}\n\t\tc = 0\n\t}\n\treturn\n}\n"),
     ("delegating_filter", "func H@(mask, n int) (_ Iter[int]) {\n\tfor i := 0; rt.Probe(i < n); i++ {\n\t\tif (mask>>uint(i))&1 == 1 {\n\t\t\tcontinue\n\t\t}\n\t\tYield(i)\n\t}\n\treturn\n}\n\nfunc G@(mask, n int) (_ Iter[int]) {\n\tYieldFrom(H@(mask, n))\n\treturn\n}\n"),
 ]
 
